@@ -131,6 +131,33 @@ def graph_diff(exp, got):
     return None
 
 
+def select_types(run):
+    """select labels over every kind of type a select may range over: the written label carries the text of the select (modulo blanks)"""
+    import tempfile, glob, shutil
+    X = ('<?xml version="1.0" encoding="utf-8"?><nta><declaration>int g; typedef scalar[3] sid_t; typedef int[0,3] r_t; const int N = 2;</declaration><template><name>P</name><location id="id0"/><location id="id1"/>'
+         '<init ref="id0"/><transition><source ref="id0"/><target ref="id1"/><label kind="select">%s</label><label kind="assignment">g = 1</label></transition></template><system>system P;</system></nta>')
+    sels = ['k : int[0,2]', 'q : r_t', 'n : sid_t', 'm : scalar[2]', 'k : int[0,N]', 'k : int[0,2], q : r_t', 'm : scalar[2], n : sid_t', 'k : int[N - 1, N + 1]']
+    tmp = tempfile.mkdtemp(prefix='c20sel', dir=vlib.WORK)
+    j = vlib.Job()
+    for k, sel in enumerate(sels):
+        j.case('s%d' % k, fork=True).model('xml', X % sel).dump('errors').cmd('WRITE %s/s%d' % (tmp, k)).end()
+    rr = vlib.run_jobs(j)
+    for k, sel in enumerate(sels):
+        c = rr['s%d' % k]
+        written = next((l[4:] for cc in c['cmds'] for l in cc[2] if l.startswith('xml ')), None)
+        if c['status'] != 'ok' or not written:
+            run.fail('the writer crashed or wrote nothing for a select over %r (%s)' % (sel, c['status']), dict(select=sel, status=c['status']), shape='crash:select-type')
+            continue
+        m = re.search(r'<label kind="select"[^>]*>(.*?)</label>', written.replace('\\n', '\n'), flags=re.S)
+        got = m.group(1) if m else None
+        norm = lambda t: re.sub(r'\s+', '', t or '')
+        if norm(got) != norm(sel):
+            run.fail('the select %r is written as %r' % (sel, got), dict(select=sel, written=got, xml=X % sel),
+                     shape='select-text:' + ('anonymous-scalar' if 'scalar[' in sel else re.sub(r'[^a-z_]+', '-', sel)[:20]))
+    shutil.rmtree(tmp, ignore_errors=True)
+    return len(sels)
+
+
 def check(run):
     thorough = run.tier == 'thorough'
     rng = run.rng
@@ -221,7 +248,8 @@ def check(run):
             mism.append(dict(kind='read_templ (write_templ t) <> graph_of t', G=G[:800], S=S[:800]))
     if mism:
         run.tie_broken('WriterModel vs write_XML_file', mism[:3] + [dict(total=len(mism))])
-    run.cov.update(evaluations=len(models), distinct_nontrivial=len(set(xmls)), traces_validated_against_impl=len(owner),
+    nsel = select_types(run)
+    run.cov.update(select_type_probes=nsel, evaluations=len(models) + nsel, distinct_nontrivial=len(set(xmls)), traces_validated_against_impl=len(owner),
                    rule='seeded random accepted models from the C04 generator (1-3 templates, up to 6 thorough; named and anonymous locations, urgent / committed, branchpoints, self loops, parallel edges, '
                         'uncontrollable edges) with label text variants: trivially true guards (1, true), guards starting with "1 && ", XML-special characters (<, >, &&), one to three selects, '
                         'probability 1, exponential rate 1, multi-assignment; write_XML_file output parsed by ElementTree/expat and compared (a) as a graph with the abstract model and '
